@@ -97,7 +97,7 @@ func newCertKit(t *testing.T, dir string) *certKit {
 	k.creds["selfSigned"] = mkLeaf("peer", "proxy.test", nil, nil, future, both)
 	k.creds["otherCA"] = mkLeaf("peer", "proxy.test", ca2, ca2Key, future, both)
 	k.creds["expired"] = mkLeaf("peer", "proxy.test", ca1, ca1Key, time.Now().Add(-time.Hour), both)
-	k.creds["hostTrusted"] = mkLeaf("peer", "proxy.test", ca3, ca3Key, future, both) // issued by a CA the host trusts, not by the configured CA
+	k.creds["hostTrusted"] = mkLeaf("peer", "proxy.test", ca3, ca3Key, future, both)                              // issued by a CA the host trusts, not by the configured CA
 	k.creds["expiredRecently"] = mkLeaf("peer", "proxy.test", ca1, ca1Key, time.Now().Add(-90*time.Second), both) // inside any "clock skew tolerance"
 	k.creds["wrongUsage.client"] = mkLeaf("peer", "proxy.test", ca1, ca1Key, future, []x509.ExtKeyUsage{x509.ExtKeyUsageServerAuth})
 	k.creds["wrongUsage.server"] = mkLeaf("peer", "proxy.test", ca1, ca1Key, future, []x509.ExtKeyUsage{x509.ExtKeyUsageClientAuth})
